@@ -122,6 +122,7 @@ func newSut(o sutOpts) *sut {
 	s := &sut{o: o, replicas: map[string]*replica{}, key: []byte(deployKey)}
 	s.logs = installLogCapture()
 	s.crypter = crypto.NewCrypter(s.key)
+	addSecretBytes("deployment_key", s.key)
 	s.idp = newFakeIdp()
 	s.idp.tokenDuration = o.tokenDuration
 	s.idp.sidRequired = o.sidRequired
@@ -277,6 +278,7 @@ func (s *sut) replicaMode(name, mode string) *replica {
 }
 
 func (s *sut) close() {
+	scanLogs(theCtx, "sut")
 	s.idp.close()
 	s.upstream.Close()
 	if s.mr != nil {
@@ -451,6 +453,9 @@ func (b *browser) do(rp *replica, method, target string, hdr http.Header) *respo
 	res := rec.Result()
 	body, _ := io.ReadAll(res.Body)
 	out := &response{Status: res.StatusCode, Header: res.Header, Body: string(body), Cookies: res.Cookies(), Location: res.Header.Get("Location")}
+	for _, ck := range out.Cookies {
+		addSecret("cookie_value", ck.Value)
+	}
 	b.store(&u, out.Cookies)
 	return out
 }
@@ -500,6 +505,7 @@ func (s *sut) ticketOf(b *browser) *session.Ticket {
 	if json.Unmarshal(pt, &t) != nil {
 		return nil
 	}
+	addSecretBytes("session_data_key", t.EncryptionKey)
 	return &t
 }
 
@@ -556,11 +562,18 @@ type logCapture struct {
 	fmtr log.Formatter
 }
 
+var globalLogs *logCapture
+
+// installLogCapture: ONE process-wide capture at trace level (logrus' standard logger is global); every SUT shares it.
 func installLogCapture() *logCapture {
+	if globalLogs != nil {
+		return globalLogs
+	}
 	lc := &logCapture{prev: log.StandardLogger().Out, lvl: log.GetLevel(), fmtr: log.StandardLogger().Formatter}
 	log.SetOutput(lockedWriter{lc})
 	log.SetLevel(log.TraceLevel)
 	log.SetFormatter(&log.JSONFormatter{})
+	globalLogs = lc
 	return lc
 }
 
@@ -580,10 +593,79 @@ func (lc *logCapture) take() string {
 	return s
 }
 
-func (lc *logCapture) uninstall() {
-	log.SetOutput(lc.prev)
-	log.SetLevel(lc.lvl)
-	log.SetFormatter(lc.fmtr)
+func (lc *logCapture) uninstall() {} // the capture stays for the life of the process
+
+// ---- C18 monitor: every secret the harness learns is looked for in everything that was logged -------------------------------------
+
+var monitor = struct {
+	mu      sync.Mutex
+	secrets map[string]string // value -> kind
+	scanned int
+	found   int
+}{secrets: map[string]string{}}
+
+func addSecret(kind, v string) {
+	if len(v) < 12 {
+		return
+	}
+	monitor.mu.Lock()
+	monitor.secrets[v] = kind
+	monitor.mu.Unlock()
+}
+
+func addSecretBytes(kind string, b []byte) {
+	if len(b) < 12 {
+		return
+	}
+	addSecret(kind, string(b))
+	addSecret(kind+":b64", base64.StdEncoding.EncodeToString(b))
+	addSecret(kind+":b64url", base64.RawURLEncoding.EncodeToString(b))
+	addSecret(kind+":hex", fmt.Sprintf("%x", b))
+}
+
+// scanLogs looks for every known secret in what was logged since the last scan and reports findings as `logscan` lines.
+func scanLogs(c *ctx, where string) {
+	if globalLogs == nil || c == nil {
+		return
+	}
+	logs := globalLogs.take()
+	monitor.mu.Lock()
+	secrets := make(map[string]string, len(monitor.secrets))
+	for k, v := range monitor.secrets {
+		secrets[k] = v
+	}
+	monitor.scanned += len(logs)
+	monitor.mu.Unlock()
+	if len(logs) == 0 {
+		return
+	}
+	lines := strings.Split(logs, "\n")
+	for v, kind := range secrets {
+		if !strings.Contains(logs, v) {
+			continue
+		}
+		sample := ""
+		for _, l := range lines {
+			if strings.Contains(l, v) {
+				sample = l
+				break
+			}
+		}
+		if len(sample) > 400 {
+			sample = sample[:400]
+		}
+		monitor.mu.Lock()
+		monitor.found++
+		monitor.mu.Unlock()
+		c.emit("logscan", "where", where, "kind", kind, "found", true, "sample", hx(strings.ReplaceAll(sample, v, "<<SECRET>>")))
+	}
+}
+
+func finishLogScan(c *ctx) {
+	scanLogs(c, "end")
+	monitor.mu.Lock()
+	defer monitor.mu.Unlock()
+	c.emit("logscan", "where", "summary", "kind", "summary", "found", false, "bytes", monitor.scanned, "secrets", len(monitor.secrets), "findings", monitor.found, "sample", hx(""))
 }
 
 // ---- store/IdP scheduler (see sched.go) hooks into miniredis ---------------------------------------------------------
